@@ -164,13 +164,13 @@ impl Sim {
         v
     }
 
-    /// drains both channels; returns canonical event strings (ParentReady is not modelled: dropped)
+    /// drains both channels; returns canonical event strings
     fn drain(&mut self, keys: &Keys) -> (Vec<String>, Vec<PoolEvent>) {
         let mut out = Vec::new();
         let mut evs = Vec::new();
         while let Ok(ev) = self.ev_rx.try_recv() {
             match &ev {
-                PoolEvent::ParentReady { .. } => {}
+                PoolEvent::ParentReady { slot, parent } => out.push(format!("pr {} {} {}", slot.inner(), parent.0.inner(), keys.hash_id[&parent.1])),
                 PoolEvent::SafeToNotar((s, h)) => out.push(format!("s2n {} {}", s.inner(), keys.hash_id[h])),
                 PoolEvent::SafeToSkip(s) => out.push(format!("s2s {}", s.inner())),
                 PoolEvent::CertCreated(c) => out.push(fmt_cert(keys, c)),
